@@ -348,13 +348,23 @@ def gen_ops(rng, kn, n, depth=0):
             op = ["rewrite", ref()]
         elif r < 0.97:
             op = ["print", ref(), rng.choice(["python", "numpy", "stablehlo", "cpp"])]
+        elif r < 0.98 and depth == 0 and kn.get("races"):
+            # two builders on two contexts in two threads; the schedule decides who runs at every line event
+            # inside the constructor / registry (process-global state is all they share)
+            def plain(n):
+                return [o for o in gen_ops(rng, dict(kn, p_fault=0.0, p_nested=0, p_lib=0.0, races=False), n, 2)
+                        if o[0] in ("sym", "const", "op", "select", "list")]
+
+            p_sw = rng.choice([0.05, 0.2, 0.5])
+            op = ["race", plain(rng.randint(2, 6)), plain(rng.randint(2, 6)),
+                  [(rng.randrange(2) if rng.random() < p_sw else -1) for _ in range(600)]]
         elif r < 0.985:
             op = ["again", rng.randrange(1 << 16)]
         else:
             # an earlier request again (new number objects of equal value, which then die), immediately
             # followed by the same request with one number changed
             op = ["again_then_vary", rng.randrange(1 << 16), rng.choice(pool)]
-        if fault is not None and op[0] not in ("again", "again_then_vary"):
+        if fault is not None and op[0] not in ("again", "again_then_vary", "race"):
             op = ["fault", fault, op]
         ops.append(op)
     return ops
@@ -437,6 +447,7 @@ def make_case(seed, tier="quick"):
         "fault_span": kn_rng.choice([5, 20, 60, 300]),
         "p_nested": kn_rng.choice([0, 1]),
         "p_lib": kn_rng.choice([0.0, 0.0, 0.02, 0.05]),
+        "races": kn_rng.random() < 0.3,
     }
     if arith_only:
         kn["pool"] = [v for v in pool if v[0] in ("f", "i") and not is_nan_value(decode_value(v))
@@ -870,6 +881,8 @@ class Sim:
                     # be one object, so neither may the expressions built on them)
                     self.violation("duplicate", "again:" + prev.kind, first=repr(prev), second=repr(res))
                 return res
+            if t == "race":
+                return self.do_race(op)
             if t == "again_then_vary":
                 cands = [d for d in self.done if _numeric_slots(d[0])]
                 if not cands:
@@ -932,6 +945,67 @@ class Sim:
             self.bump(self.faults, "rejected:" + type(e).__name__)
             self.log.ev("rejected", type(e).__name__)
             return None
+
+    def do_race(self, op):
+        import copy
+        import threading
+
+        from ..fpusim.engine import Scheduler
+
+        _, ops_a, ops_b, schedule = op
+        # two views of this simulation, each on its own context, sharing verdicts and bookkeeping
+        self.switch(1)
+        self.switch(0)
+        views = []
+        for k in (0, 1):
+            v = copy.copy(self)
+            names = ("ctx", "vals", "done", "req_tree", "req_roots")
+            src = self if k == self.current else self.bundles[k]
+            for n in names:
+                setattr(v, n, getattr(src, n) if k == self.current else src[n])
+            views.append(v)
+        sched = Scheduler(2, schedule, self.log)
+        files = ("functional_algorithms/expr.py", "functional_algorithms/context.py", "functional_algorithms/typesystem.py")
+        errors = []
+
+        def tracer_for(tid):
+            def local(frame, event, arg):
+                if event == "line":
+                    sched.point(tid, "cons")
+                return local
+
+            def glob(frame, event, arg):
+                if frame.f_code.co_filename.endswith(files):
+                    return local
+                return None
+
+            return glob
+
+        def body(tid, ops):
+            sched.wait_turn(tid)
+            sys.settrace(tracer_for(tid))
+            try:
+                for o in ops:
+                    views[tid].step(o)
+            except BaseException as e:  # harness trouble
+                errors.append(repr(e))
+            finally:
+                sys.settrace(None)
+                sched.finish(tid)
+
+        ths = [threading.Thread(target=body, args=(t, o), daemon=True) for t, o in ((0, ops_a), (1, ops_b))]
+        for th in ths:
+            th.start()
+        sched.start()
+        sched.done.acquire()
+        for th in ths:
+            th.join()
+        self.steps += views[0].steps + views[1].steps - 2 * self.steps
+        if errors:
+            raise RuntimeError("race thread error: " + "; ".join(errors))
+        self.bump(self.probes, "two_builders_raced_on_two_contexts")
+        self.bump(self.stats, "race_thread_switches", sched.switches)
+        return None
 
     def do_nested(self, op, fault):
         how, types, body = op
